@@ -174,3 +174,60 @@ Definition b58_encode (bs:bytes) : list N := map (fun d => nth (N.to_nat d) ALPH
 Definition b58check_encode (payload:bytes) : list N := b58_encode (payload ++ firstn 4 (sha256d payload)).
 Definition hash160_to_address (version:N) (h160:bytes) : list N := b58check_encode (version :: h160).
 Definition public_key_to_addr (version:N) (pk:bytes) : list N := hash160_to_address version (hash160 pk).
+
+(* ---------- decoding, and the Base58Check round trip (C05 / C06: every reported address decodes to version byte || hash) ---------- *)
+From RBP Require Import Codec.
+Fixpoint index_of (c:N) (l:list N) (i:N) : option N := match l with [] => None | x :: r => if x =? c then Some i else index_of c r (i + 1) end.
+Definition unalpha (c:N) : option N := index_of c ALPHABET 0.
+Fixpoint traverse {A B} (f:A -> option B) (l:list A) : option (list B) :=
+  match l with [] => Some [] | x :: r => match f x, traverse f r with Some y, Some ys => Some (y :: ys) | _, _ => None end end.
+Definition b58_decode (s:list N) : option bytes := option_map b58_undigits (traverse unalpha s).
+Fixpoint list_eqb (a b:list N) : bool := match a, b with [], [] => true | x :: a', y :: b' => (x =? y) && list_eqb a' b' | _, _ => false end.
+Definition b58check_decode (s:list N) : option bytes :=
+  match b58_decode s with
+  | None => None
+  | Some raw => let n := length raw in
+      if (n <? 4)%nat then None else
+      let p := firstn (n - 4) raw in let c := skipn (n - 4) raw in
+      if list_eqb c (firstn 4 (sha256d p)) then Some p else None end.
+
+Lemma list_eqb_refl a : list_eqb a a = true.
+Proof. induction a; cbn; [reflexivity|]. now rewrite N.eqb_refl. Qed.
+Lemma unalpha_alphabet : forallb (fun d => match unalpha (nth d ALPHABET 0) with Some i => i =? N.of_nat d | None => false end) (seq 0 58) = true.
+Proof. vm_compute. reflexivity. Qed.
+Lemma unalpha_nth d : d < 58 -> unalpha (nth (N.to_nat d) ALPHABET 0) = Some d.
+Proof.
+  intro H. pose proof unalpha_alphabet as A. rewrite forallb_forall in A. specialize (A (N.to_nat d) ltac:(apply in_seq; lia)).
+  destruct (unalpha (nth (N.to_nat d) ALPHABET 0)) as [i|]; [|discriminate]. apply N.eqb_eq in A. f_equal. lia.
+Qed.
+Lemma traverse_unalpha ds : Forall (fun d => d < 58) ds -> traverse unalpha (map (fun d => nth (N.to_nat d) ALPHABET 0) ds) = Some ds.
+Proof. induction 1 as [|d r Hd Hr IH]; [reflexivity|]. cbn [map traverse]. now rewrite (unalpha_nth d Hd), IH. Qed.
+Lemma to_le_small B : 0 < B -> forall fuel n, Forall (fun d => d < B) (to_le fuel B n).
+Proof. intros HB. induction fuel as [|f IH]; intro n; cbn [to_le]; [constructor|]. destruct (n =? 0); constructor; [apply N.mod_lt; lia|apply IH]. Qed.
+Lemma b58_digits_small bs : Forall (fun d => d < 58) (b58_digits bs).
+Proof.
+  unfold b58_digits. apply Forall_app. split.
+  - apply Forall_forall. intros x Hx. apply repeat_spec in Hx. subst. lia.
+  - apply Forall_rev. apply to_le_small. lia.
+Qed.
+Theorem b58_decode_encode bs : wfb bs = true -> b58_decode (b58_encode bs) = Some bs.
+Proof.
+  intro H. unfold b58_decode, b58_encode. rewrite traverse_unalpha by apply b58_digits_small. cbn [option_map]. f_equal. now apply b58_digits_roundtrip.
+Qed.
+(* any payload (version byte || hash of any length): the address decodes back to exactly that payload, checksum verified *)
+Theorem b58check_roundtrip p : wfb p = true -> b58check_decode (b58check_encode p) = Some p.
+Proof.
+  intro H. unfold b58check_decode, b58check_encode.
+  assert (Hc : length (firstn 4 (sha256d p)) = 4%nat) by (rewrite firstn_length; unfold sha256d; rewrite sha256_length; reflexivity).
+  assert (Hw : wfb (p ++ firstn 4 (sha256d p)) = true).
+  { rewrite wfb_app, H. cbn [andb]. pose proof (sha256d_wfb p) as W. unfold wfb in *. rewrite forallb_forall in *. intros x Hx. apply W. rewrite <- (firstn_skipn 4 (sha256d p)). apply in_or_app. now left. }
+  rewrite (b58_decode_encode _ Hw). rewrite app_length, Hc.
+  replace (length p + 4 <? 4)%nat with false by (symmetry; apply Nat.ltb_ge; lia).
+  replace (length p + 4 - 4)%nat with (length p) by lia.
+  rewrite firstn_app, Nat.sub_diag, firstn_O, app_nil_r, firstn_all, skipn_app, Nat.sub_diag, skipn_all. cbn [app skipn]. now rewrite list_eqb_refl.
+Qed.
+(* the forms used by the code *)
+Corollary address_decodes version h : version < 256 -> wfb h = true -> b58check_decode (hash160_to_address version h) = Some (version :: h).
+Proof. intros Hv Hh. unfold hash160_to_address. apply b58check_roundtrip. unfold wfb in *. cbn [forallb]. rewrite Hh. replace (version <? 256) with true by lia. reflexivity. Qed.
+Corollary p2pk_address_decodes version pk : version < 256 -> b58check_decode (public_key_to_addr version pk) = Some (version :: hash160 pk).
+Proof. intro Hv. unfold public_key_to_addr. apply address_decodes; [exact Hv|apply hash160_wfb]. Qed.
